@@ -601,6 +601,13 @@ def run(ctx):
         tgtlib.evaluate(ctx, [o for o in chains if o["nprobes"] <= 4000], c01.case_term, "From SX Require Import Base.Bytes Model.IPNet Model.Targets Spec.C13 Spec.C01.",
                         8 if quick else 32, c01.describe, c01.CODES)
     if model_ok and rows:
+        # the long exclusion files are judged by the property on the implementation's observation above (membership of
+        # every address of the target, the boundaries of every entry, the real chain); the in-Coq comparison of a file of
+        # thousands of lines over a /19../21 costs minutes per case, so they are not evaluated by the model here
+        nlong = sum(1 for o in rows if o["kind"] == "excl" and o.get("bytes"))
+        if nlong:
+            ctx.info.append("%d long exclusion files judged by the property on the observation only (not re-evaluated in Coq)" % nlong)
+        rows = [o for o in rows if not (o["kind"] == "excl" and o.get("bytes"))]
         nshards = 16 if quick else 64
         # balance shards by payload size
         rows_sorted = sorted(range(len(rows)), key=lambda i: -len(json.dumps(rows[i])))
